@@ -193,9 +193,9 @@ pub fn entry_agree<const ALG: u8, const H: usize, const N: usize, const K: u8>()
 
 /// canary: must FAIL
 pub fn entry_canary() {
-    let i = inputs::<3, 2, 0>();
+    let i = inputs::<2, 2, 0>();
     let mut m = small_matcher(i.cfg.clone(), 8);
-    let r = call::<SUBSTRING, false>(&mut m, &i.hay, &i.needle, &mut Vec::new());
+    let r = call::<EXACT, false>(&mut m, &i.hay, &i.needle, &mut Vec::new());
     std::mem::forget(m);
     assert!(r.is_none());
 }
